@@ -56,6 +56,7 @@ class Run:
         self.b = Bench(rng)
         self.findings = []    # (key, what)
         self.events = []      # per op: (op, status, detail)
+        self.op_bounds = []   # socket-operation count after each op of the history (fault positions inside a given op)
         log = self.b.log
         ident = rt.Identity()
         pol = make_policy(policy)
@@ -168,6 +169,7 @@ class Run:
             fired_before = bool(net.fault and net.fault.fired)
             closes_before = self.close_calls
             st, out = self.do(op)
+            self.op_bounds.append(net.io_ops)
             fired_now = bool(net.fault and net.fault.fired) and not fired_before
             self.events.append((op, st, type(out).__name__ if st != "ok" else ("falsy" if (out is False or out is None or (hasattr(out, "error") and not out)) else "ok")))
             ctxt = f"history {list(self.history)}, op #{i} {op}, policy {self.policy_name}, fault {self.fault}, driver {self.kind}"
